@@ -161,8 +161,10 @@ Crossbeam<'a, ItemType, BUFFER_SIZE, MAX_STREAMS> {
                 break
             }
             let sender = unsafe { self.senders.get_unchecked(*stream_id as usize) };
+            vp!("cb.len", *stream_id);
             match sender.len() {
                 len_before if len_before <= 2 => {
+                    vp!("cb.try", *stream_id);
                     let _ = sender.try_send(arc_item.clone());
                     self.streams_manager.wake_stream(*stream_id);
                 },
@@ -204,6 +206,7 @@ Crossbeam<'a, ItemType, BUFFER_SIZE, MAX_STREAMS> {
     #[inline(always)]
     fn consume(&self, stream_id: u32) -> Option<Arc<ItemType>> {
         let receiver = unsafe { self.receivers.get_unchecked(stream_id as usize) };
+        vp!("cb.recv", stream_id);
         match receiver.try_recv() {
             Ok(event) => {
                 Some(event)
